@@ -1,11 +1,518 @@
-//! C04 — not built yet.
-use crate::ev::Ctx;
-pub fn run(_ctx: &Ctx) -> i32 {
-    println!("INCONCLUSIVE property=C04 check not built yet");
+//! C04 — totality: no panic, abort, stack overflow or hang on any input.
+//!
+//! Cases run in crash-isolated WORKER subprocesses (this binary re-executes
+//! itself): a worker announces each case on its stdout before starting it, runs
+//! it on its main thread (the default 8 MiB stack a real process has) under
+//! catch_unwind, with an address-space limit so that an allocation bomb becomes
+//! an abort attributable to the case. The parent turns a dead worker into a
+//! violation naming the in-flight case, and a worker that stops making
+//! progress into a solitary re-run of that case with a large budget before it
+//! is called a hang. The real binaries' wait status is checked on a sample.
+
+use std::io::{BufRead, BufReader, Write};
+use std::process::{Command, Stdio};
+use std::sync::atomic::{AtomicUsize, Ordering};
+use std::time::{Duration, Instant};
+
+use serde_json::{json, Value};
+
+use crate::corpus;
+use crate::ev::{self, Acc, Ctx, Finish, Violation};
+use crate::fmts::{self, Fmt, ALL, ALL_FROM};
+use crate::gen::GenOpts;
+use crate::model::{hex, preview, unhex};
+use crate::mon::{Sched, EOF_READ_LIMIT};
+use crate::procmon::{self, Run, Scratch, Status, StdinKind, StdoutKind};
+use crate::rng::Rng;
+use crate::run::{run_reader, run_slice, Verdict};
+
+/// Adversarial shapes: (bytes, class).
+pub fn adversarial(seed: u64, idx: usize, thorough: bool) -> (Vec<u8>, &'static str) {
+    let mut rng = Rng::derive(seed, 0xc04a, idx as u64);
+    let deep = if thorough { 100_000 } else { 5_000 };
+    let deep_yaml = if thorough { 30_000 } else { 1_200 };
+    match idx % 16 {
+        0 => (crate::c18::nested(Fmt::Json, crate::c18::Shape::Arrays, deep), "deep_json_arrays"),
+        1 => (crate::c18::nested(Fmt::Json, crate::c18::Shape::Maps, deep), "deep_json_maps"),
+        2 => (crate::c18::nested(Fmt::Msgpack, crate::c18::Shape::Alternating, deep), "deep_msgpack"),
+        3 => (crate::c18::nested(Fmt::Msgpack, crate::c18::Shape::KeyPosition, deep), "deep_msgpack_key_position"),
+        4 => (crate::c18::nested(Fmt::Toml, crate::c18::Shape::Arrays, deep), "deep_toml_arrays"),
+        5 => (crate::c18::nested(Fmt::Toml, crate::c18::Shape::Maps, deep.min(20_000)), "deep_toml_inline_tables"),
+        6 => (crate::c18::nested(Fmt::Yaml, crate::c18::Shape::Alternating, deep_yaml), "deep_yaml_flow"),
+        7 => {
+            // unclosed openers only
+            let c = *rng.pick(&[b'[', b'{']);
+            (vec![c; deep], "deep_unclosed_openers")
+        }
+        8 => {
+            // a huge declared length on every str/bin/ext/array/map marker
+            let markers = [0xdbu8, 0xc6, 0xc9, 0xdd, 0xdf, 0xda, 0xc5, 0xc8, 0xdc, 0xde, 0xd9, 0xc4, 0xc7];
+            let m = markers[(idx / 16) % markers.len()];
+            let mut b = vec![m];
+            let lens: [&[u8]; 4] = [&[0xff, 0xff, 0xff, 0xff], &[0x7f, 0xff, 0xff, 0xff], &[0x80, 0x00, 0x00, 0x00], &[0xff, 0xff]];
+            b.extend_from_slice(lens[(idx / 208) % 4]);
+            let n = rng.below(6);
+            b.extend(rng.bytes(n));
+            // sometimes inside a collection so that detection looks at it
+            if rng.chance(1, 2) {
+                b.insert(0, 0x91);
+            }
+            (b, "huge_declared_length")
+        }
+        9 => {
+            // alias bomb
+            let levels = 4 + (idx / 16) % 8;
+            let mut s = String::from("a0: &a0 [x, x, x, x, x, x, x, x, x]\n");
+            for l in 1..levels {
+                s.push_str(&format!("a{l}: &a{l} [*a{p}, *a{p}, *a{p}, *a{p}, *a{p}, *a{p}, *a{p}, *a{p}, *a{p}]\n", p = l - 1));
+            }
+            (s.into_bytes(), "alias_bomb")
+        }
+        10 => {
+            let lone: [&[u8]; 14] = [b"*y", b"&a", b"&a *a", b"!t", b"!!binary", b"- *x\n- &x 1\n", b"&a [*a]", b"? ", b"!", b"!<>", b"&", b"*", b"!!str\n", b"--- !t\n...\n"];
+            (lone[(idx / 16) % lone.len()].to_vec(), "lone_anchor_alias_tag")
+        }
+        11 => (vec![], "empty_input"),
+        12 => {
+            // a valid document with one node the target must refuse, at a random nesting position
+            let mut cl = crate::gen::Classes::default();
+            let mut feats = crate::spell::Feats::default();
+            let mut d = crate::gen::gen_collection(&mut rng, &GenOpts { max_depth: 5, max_width: 3, ..GenOpts::common() }, 0, &mut cl, true);
+            let bad = match rng.below(4) {
+                0 => crate::model::Val::Null,
+                1 => crate::model::Val::Bytes(vec![1, 2, 3]),
+                2 => crate::model::Val::Map(vec![(crate::model::Val::Seq(vec![crate::model::Val::Int(1)]), crate::model::Val::Int(2))]),
+                _ => crate::model::Val::Map(vec![(crate::model::Val::Null, crate::model::Val::Int(2))]),
+            };
+            plant(&mut d, &bad, &mut rng);
+            (crate::spell::spell(Fmt::Msgpack, &d, &mut rng, &mut feats, false), "valid_with_refused_node")
+        }
+        13 => {
+            // wide and long scalars
+            let n = 1 << (10 + (idx / 16) % 8);
+            let forms: [Vec<u8>; 4] = [format!("\"{}\"", "a".repeat(n)).into_bytes(), format!("[{}1]", "1,".repeat(n)).into_bytes(), format!("{}", "9".repeat(n)).into_bytes(), format!("k: {}\n", "- x ".repeat(n / 4)).into_bytes()];
+            (forms[rng.below(4)].clone(), "long_scalar_or_wide_collection")
+        }
+        14 => {
+            // numbers at the edges of every parser
+            let nums = ["1e999999999", "-1e-999999999", "0.000000000000000000000000000000000000000000000000000000000000000000000000000000000000000000000000000000000001", "123456789012345678901234567890123456789012345678901234567890", "-0", "1E400", "0e0", "1e+", "0x", "0o8", "1__2", "9223372036854775808", "-9223372036854775809", "18446744073709551616", "340282366920938463463374607431768211456", "-170141183460469231731687303715884105729"];
+            let n = nums[(idx / 16) % nums.len()];
+            let forms = [n.to_string(), format!("[{n}]"), format!("a = {n}\n"), format!("k: {n}\n"), format!("{{\"k\": {n}}}")];
+            (forms[rng.below(5)].clone().into_bytes(), "numeric_edge")
+        }
+        _ => {
+            let n = rng.range(1, 200);
+            (rng.bytes(n), "random_bytes")
+        }
+    }
+}
+
+fn plant(v: &mut crate::model::Val, bad: &crate::model::Val, rng: &mut Rng) {
+    use crate::model::Val;
+    match v {
+        Val::Seq(xs) if !xs.is_empty() && rng.chance(2, 3) => {
+            let i = rng.below(xs.len());
+            plant(&mut xs[i], bad, rng)
+        }
+        Val::Map(m) if !m.is_empty() && rng.chance(2, 3) => {
+            let i = rng.below(m.len());
+            plant(&mut m[i].1, bad, rng)
+        }
+        Val::Seq(xs) => xs.push(bad.clone()),
+        Val::Map(m) => m.push((Val::s("planted"), bad.clone())),
+        other => *other = bad.clone(),
+    }
+}
+
+/// The input of case `idx`.
+pub fn case_input(seed: u64, idx: usize, thorough: bool) -> (Vec<u8>, &'static str) {
+    if idx % 4 == 3 {
+        adversarial(seed, idx / 4, thorough)
+    } else {
+        let it = corpus::mixed_item(seed, idx, &GenOpts::common());
+        (it.bytes, it.class)
+    }
+}
+
+/// Runs every (from, to, mode) combination of one case in THIS process.
+/// Returns (runs, panics as text, hang-guard hits).
+pub fn run_case(input: &[u8], seed: u64, idx: usize) -> (u64, Vec<String>, u64) {
+    let mut rng = Rng::derive(seed, 0xc04, idx as u64);
+    let mut runs = 0;
+    let mut panics = vec![];
+    let mut hangs = 0;
+    let heavy = input.len() > 100_000;
+    for from in ALL_FROM {
+        for to in ALL {
+            if heavy && rng.chance(2, 3) {
+                continue; // large adversarial inputs: a third of the combinations
+            }
+            let s = run_slice(input, from, to);
+            runs += 1;
+            if let Verdict::Panic(p) = &s.verdict {
+                panics.push(format!("slice from={} to={}: {p}", fmts::from_name(from), to.name()));
+            }
+            let sched = match rng.below(4) {
+                0 => Sched::All,
+                1 => Sched::Fixed(1 + rng.below(16)),
+                2 => Sched::Random(rng.next(), 4096),
+                _ => Sched::Fixed(8192),
+            };
+            let (r, log) = run_reader(input, &sched, from, to);
+            runs += 1;
+            if let Verdict::Panic(p) = &r.verdict {
+                panics.push(format!("reader({}) from={} to={}: {p}", sched.describe(), fmts::from_name(from), to.name()));
+            }
+            if log.reads_after_eof > EOF_READ_LIMIT {
+                hangs += 1;
+            }
+        }
+    }
+    (runs, panics, hangs)
+}
+
+pub fn worker_main(args: &[String]) -> i32 {
+    let get = |k: &str, d: usize| -> usize { args.iter().position(|a| a == k).and_then(|p| args.get(p + 1)).and_then(|v| v.parse().ok()).unwrap_or(d) };
+    let (seed, start, end) = (get("--seed", 0) as u64, get("--start", 0), get("--end", 0));
+    let thorough = args.iter().any(|a| a == "--thorough");
+    unsafe {
+        // an allocation bomb must become an abort of THIS process, attributable to the case
+        let lim = libc::rlimit { rlim_cur: 8 << 30, rlim_max: 8 << 30 };
+        libc::setrlimit(libc::RLIMIT_AS, &lim);
+    }
+    let out = std::io::stdout();
+    for idx in start..end {
+        {
+            let mut o = out.lock();
+            let _ = writeln!(o, "B {idx}");
+            let _ = o.flush();
+        }
+        let (input, _class) = case_input(seed, idx, thorough);
+        let (runs, panics, hangs) = run_case(&input, seed, idx);
+        let mut o = out.lock();
+        let _ = writeln!(o, "E {idx} {runs} {} {hangs} {}", panics.len(), panics.first().map(|p| p.replace('\n', " ")).unwrap_or_default());
+        let _ = o.flush();
+    }
+    println!("DONE");
+    0
+}
+
+#[derive(Debug)]
+enum WorkerEnd {
+    Done,
+    Died { in_flight: Option<usize>, status: String },
+    Stalled { in_flight: Option<usize> },
+}
+
+/// Drives one worker over [start, end); returns how it ended and per-case results.
+fn drive_worker(seed: u64, thorough: bool, start: usize, end: usize, stall_secs: u64, acc: &mut Acc, first_panics: &mut Vec<(usize, String)>, hang_cases: &mut Vec<usize>) -> (WorkerEnd, usize) {
+    let exe = std::env::current_exe().expect("current_exe");
+    let mut cmd = Command::new(exe);
+    cmd.args(["c04-worker", "--seed", &seed.to_string(), "--start", &start.to_string(), "--end", &end.to_string()]);
+    if thorough {
+        cmd.arg("--thorough");
+    }
+    cmd.stdout(Stdio::piped()).stderr(Stdio::null()).stdin(Stdio::null());
+    let mut child = match cmd.spawn() {
+        Ok(c) => c,
+        Err(e) => return (WorkerEnd::Died { in_flight: None, status: format!("spawn failed: {e}") }, start),
+    };
+    let pid = child.id() as i32;
+    let stdout = child.stdout.take().unwrap();
+    // reader thread -> channel, so that the parent can notice a stall
+    let (tx, rx) = std::sync::mpsc::channel::<String>();
+    std::thread::spawn(move || {
+        for line in BufReader::new(stdout).lines().map_while(Result::ok) {
+            if tx.send(line).is_err() {
+                break;
+            }
+        }
+    });
+    let mut in_flight: Option<usize> = None;
+    let mut next = start;
+    let mut done = false;
+    loop {
+        match rx.recv_timeout(Duration::from_secs(stall_secs)) {
+            Ok(line) => {
+                let mut it = line.splitn(6, ' ');
+                match it.next() {
+                    Some("B") => in_flight = it.next().and_then(|x| x.parse().ok()),
+                    Some("E") => {
+                        let idx: usize = it.next().and_then(|x| x.parse().ok()).unwrap_or(0);
+                        let runs: u64 = it.next().and_then(|x| x.parse().ok()).unwrap_or(0);
+                        let n_panics: u64 = it.next().and_then(|x| x.parse().ok()).unwrap_or(0);
+                        let hangs: u64 = it.next().and_then(|x| x.parse().ok()).unwrap_or(0);
+                        let first = it.next().unwrap_or("").to_string();
+                        acc.evals += runs;
+                        acc.add("cases_completed", 1);
+                        if n_panics > 0 {
+                            acc.add("runs_panicked", n_panics);
+                            first_panics.push((idx, first));
+                        }
+                        if hangs > 0 {
+                            hang_cases.push(idx);
+                        }
+                        in_flight = None;
+                        next = idx + 1;
+                    }
+                    Some("DONE") => {
+                        done = true;
+                    }
+                    _ => {}
+                }
+            }
+            Err(std::sync::mpsc::RecvTimeoutError::Timeout) => {
+                unsafe {
+                    libc::kill(pid, libc::SIGKILL);
+                }
+                let _ = child.wait();
+                return (WorkerEnd::Stalled { in_flight }, in_flight.map(|i| i + 1).unwrap_or(next));
+            }
+            Err(std::sync::mpsc::RecvTimeoutError::Disconnected) => break,
+        }
+    }
+    let status = child.wait();
+    if done {
+        return (WorkerEnd::Done, end);
+    }
+    use std::os::unix::process::ExitStatusExt;
+    let st = match status {
+        Ok(s) => match (s.code(), s.signal()) {
+            (_, Some(sig)) => format!("killed by signal {sig}"),
+            (Some(c), _) => format!("exit {c}"),
+            _ => "unknown".into(),
+        },
+        Err(e) => format!("wait failed: {e}"),
+    };
+    (WorkerEnd::Died { in_flight, status: st }, in_flight.map(|i| i + 1).unwrap_or(next))
+}
+
+fn case_json(seed: u64, idx: usize, thorough: bool) -> Value {
+    let (input, class) = case_input(seed, idx, thorough);
+    json!({"seed": seed, "case_index": idx, "thorough": thorough, "class": class, "input_bytes": input.len(), "input_hex": if input.len() <= 4096 { hex(&input) } else { String::new() }, "input_preview": preview(&input, 120)})
+}
+
+pub fn run(ctx: &Ctx) -> i32 {
+    let n = ctx.size(4000, 150000);
+    let thorough = ctx.thorough();
+    let seed = ctx.seed;
+    let workers = crate::par::threads();
+    let chunk = 50usize;
+    let next = AtomicUsize::new(0);
+    let total = std::sync::Mutex::new(Acc::default());
+    std::thread::scope(|s| {
+        for _ in 0..workers {
+            s.spawn(|| {
+                let mut acc = Acc::default();
+                loop {
+                    let start = next.fetch_add(chunk, Ordering::Relaxed);
+                    if start >= n {
+                        break;
+                    }
+                    let end = (start + chunk).min(n);
+                    let mut at = start;
+                    while at < end {
+                        let mut panics = vec![];
+                        let mut hangs = vec![];
+                        let (how, resume) = drive_worker(seed, thorough, at, end, 120, &mut acc, &mut panics, &mut hangs);
+                        for (idx, text) in panics {
+                            acc.violation(Violation { sig: format!("panic: {}", ev::truncate(&crate::c02_mask(&text), 80)), case: case_json(seed, idx, thorough), observed: text, expected: "Ok or Err".into() });
+                        }
+                        for idx in hangs {
+                            acc.violation(Violation { sig: "keeps reading after end of input".into(), case: case_json(seed, idx, thorough), observed: format!("more than {EOF_READ_LIMIT} read() calls after the reader reported end of input"), expected: "termination".into() });
+                        }
+                        let was_done = matches!(how, WorkerEnd::Done);
+                        match how {
+                            WorkerEnd::Done => {}
+                            WorkerEnd::Died { in_flight, status } => {
+                                acc.count("workers_died");
+                                match in_flight {
+                                    Some(idx) => acc.violation(Violation { sig: format!("worker died ({status})"), case: case_json(seed, idx, thorough), observed: format!("the worker process was {status} while running this case (stack overflow, abort or allocation failure)"), expected: "Ok or Err".into() }),
+                                    None => acc.harness_errors.push(format!("a worker died between cases ({status})")),
+                                }
+                            }
+                            WorkerEnd::Stalled { in_flight } => {
+                                acc.count("workers_stalled");
+                                if let Some(idx) = in_flight {
+                                    // solitary re-run with a budget three orders of magnitude above the norm
+                                    let t0 = Instant::now();
+                                    let mut p2 = vec![];
+                                    let mut h2 = vec![];
+                                    let mut a2 = Acc::default();
+                                    let (how2, _) = drive_worker(seed, thorough, idx, idx + 1, 900, &mut a2, &mut p2, &mut h2);
+                                    match how2 {
+                                        WorkerEnd::Done => {
+                                            acc.count("slow_cases_completed_alone");
+                                            acc.max("slowest_case_seconds", t0.elapsed().as_secs());
+                                            acc.evals += a2.evals;
+                                        }
+                                        _ => acc.violation(Violation { sig: "no termination within the budget".into(), case: case_json(seed, idx, thorough), observed: format!("the case did not finish within 120 s in a batch nor within 900 s alone ({how2:?})"), expected: "termination".into() }),
+                                    }
+                                }
+                            }
+                        }
+                        at = resume.max(at + 1).min(end);
+                        if was_done {
+                            break;
+                        }
+                    }
+                }
+                total.lock().unwrap().merge(acc);
+            });
+        }
+    });
+    let mut acc = total.into_inner().unwrap();
+    // class tallies and distinct inputs, computed in the parent
+    for idx in 0..n {
+        let (input, class) = case_input(seed, idx, thorough);
+        acc.count(&format!("class_{class}"));
+        if !input.is_empty() {
+            acc.distinct(&input);
+        }
+        if idx % 997 == 0 {
+            acc.sample(json!({"case_index": idx, "class": class, "bytes": input.len(), "input_preview": preview(&input, 80)}));
+        }
+        acc.max("largest_input_bytes", input.len() as u64);
+    }
+    // the real binaries' wait status on a sample of adversarial inputs
+    let sc = Scratch::new();
+    let mut sample = 0;
+    for k in 0..(if thorough { 160 } else { 48 }) {
+        let (input, class) = adversarial(seed, k, false);
+        let name = format!("adv{k}");
+        sc.file(&name, &input);
+        for (bin, bname) in [(procmon::release_bin(), "release"), (procmon::debug_bin(), "debug")] {
+            let from = ALL_FROM[k % 5];
+            let to = ALL[(k / 5) % 4];
+            let mut argv: Vec<String> = vec!["-t".into(), to.name().into()];
+            if let Some(f) = from {
+                argv.push("-f".into());
+                argv.push(f.name().into());
+            }
+            let via_stdin = k % 2 == 0;
+            if !via_stdin {
+                argv.push(name.clone());
+            }
+            let out = procmon::run(Run { bin: &bin, argv: argv.clone(), cwd: sc.path(), stdin: if via_stdin { StdinKind::Bytes(input.clone()) } else { StdinKind::Null }, stdout: StdoutKind::File, wall_secs: 300, cpu_secs: 240 });
+            sample += 1;
+            match out.status {
+                Status::Exit(0) | Status::Exit(1) => acc.count("binary_sample_exit_0_or_1"),
+                Status::Timeout | Status::SpawnError(_) => acc.inconclusive += 1,
+                ref other => acc.violation(Violation { sig: format!("{bname} binary: {}", other.show()), case: json!({"binary": bname, "argv": argv, "adversarial_index": k, "class": class, "stdin": via_stdin, "input_hex": if input.len() <= 4096 { hex(&input) } else { String::new() }}), observed: format!("{}; stderr [{}]", other.show(), preview(&out.stderr, 200)), expected: "exit 0 or 1 (the only signal xt may die from is SIGPIPE)".into() }),
+            }
+        }
+    }
+    acc.add("binary_sample_runs", sample);
+    if thorough {
+        fuzz_stage(ctx, "totality", 600, "C04", &mut acc);
+    }
+    let rule = format!("{} cases in crash-isolated worker processes: 3/4 mixed corpus inputs (valid streams, mutants, splices, seeds, random bytes/tokens), 1/4 adversarial shapes (nesting to {} for JSON/MessagePack/TOML and {} for YAML, unclosed openers, declared lengths up to 2^32-1 on every str/bin/ext/array/map marker, alias bombs, lone anchors/aliases/tags, empty input, valid documents with a node the target must refuse, long scalars and wide collections, numeric edge literals, random bytes); every case x 5 source selections x 4 targets x [slice, reader under a random schedule] on the worker's 8 MiB main-thread stack with an 8 GiB address-space limit; plus a sample of adversarial inputs through the debug and release binaries; distinct non-trivial = distinct non-empty inputs", n, if thorough { 100000 } else { 5000 }, if thorough { 30000 } else { 1200 });
+    let mut f = Finish { ctx, level: "exploration", rule, assumptions: vec!["'never loops forever' is decided up to a budget: 120 s without progress in a batch, then 900 s alone".into(), "a dead worker is attributed to the case it had announced".into()], extra: serde_json::Map::new(), exhaustive: false, min_distinct: 1000, must_reach: vec![("cases_completed".into(), (n as u64) * 9 / 10), ("binary_sample_exit_0_or_1".into(), 50), ("class_huge_declared_length".into(), 10), ("class_alias_bomb".into(), 10)] };
+    if !acc.violations.is_empty() {
+        f.must_reach.clear();
+    }
+    ev::finish(f, acc)
+}
+
+/// Thorough tier: libFuzzer + AddressSanitizer (cargo-fuzz) on a target of
+/// /verif/fuzzproj; crash / timeout / oom artefacts become violations.
+pub fn fuzz_stage(ctx: &Ctx, target: &str, secs: u64, prop: &str, acc: &mut Acc) {
+    let out_dir = std::env::var("XTV_OUT").unwrap_or_else(|_| "/verif/out".into());
+    let proj = format!("{}/fuzzproj", ctx.verif_dir);
+    let corpus_dir = format!("{out_dir}/fuzz-corpus/{target}");
+    let art_dir = format!("{out_dir}/fuzz-artifacts/{target}-s{}", ctx.seed);
+    let _ = std::fs::remove_dir_all(&art_dir);
+    let _ = std::fs::create_dir_all(&art_dir);
+    let _ = std::fs::create_dir_all(&corpus_dir);
+    for (i, s) in corpus::seeds().iter().enumerate() {
+        // selector bytes in front so that seeds reach every (from, to, mode)
+        for sel in [0u8, 1, 2, 3, 4, 0x24, 0x2b, 0x33] {
+            let mut b = vec![sel, (i % 5) as u8, 0];
+            b.extend_from_slice(&s.bytes);
+            let _ = std::fs::write(format!("{corpus_dir}/seed-{i}-{sel}"), &b);
+        }
+    }
+    let _ = std::fs::copy("/repo/Cargo.lock", format!("{proj}/fuzz/Cargo.lock"));
+    let log = format!("{out_dir}/logs/fuzz-{target}-s{}.log", ctx.seed);
+    let status = Command::new("cargo")
+        .current_dir(&proj)
+        .args(["+nightly", "fuzz", "run", target, "--target-dir", &format!("{out_dir}/target-fuzz"), &corpus_dir, "--"])
+        .args([&format!("-max_total_time={secs}"), &format!("-fork={}", crate::par::threads()), "-timeout=10", "-rss_limit_mb=4096", "-ignore_crashes=1", "-ignore_timeouts=1", "-ignore_ooms=1", &format!("-seed={}", ctx.seed + 1), &format!("-artifact_prefix={art_dir}/")])
+        .env("CARGO_NET_OFFLINE", "true")
+        .env_remove("RUSTFLAGS")
+        .stdout(Stdio::null())
+        .stderr(std::fs::File::create(&log).map(Stdio::from).unwrap_or(Stdio::null()))
+        .status();
+    match status {
+        Err(e) => acc.harness_errors.push(format!("cannot run cargo fuzz: {e}")),
+        Ok(st) => {
+            let text = std::fs::read_to_string(&log).unwrap_or_default();
+            // libFuzzer's last status line: "#12345: cov: 1234 ft: 5678 corp: 321 exec/s 900 ..."
+            if let Some(l) = text.lines().rev().find(|l| l.starts_with('#') && l.contains("cov:")) {
+                let num = |key: &str| -> u64 { l.split_whitespace().skip_while(|w| *w != key).nth(1).and_then(|x| x.trim_end_matches(|c: char| !c.is_ascii_digit()).split('/').next().and_then(|y| y.parse().ok())).unwrap_or(0) };
+                acc.add(&format!("fuzz_{target}_executions"), l.trim_start_matches('#').split(':').next().and_then(|x| x.parse().ok()).unwrap_or(0));
+                acc.add(&format!("fuzz_{target}_coverage_edges"), num("cov:"));
+                acc.add(&format!("fuzz_{target}_corpus_entries"), num("corp:"));
+                acc.evals += l.trim_start_matches('#').split(':').next().and_then(|x| x.parse::<u64>().ok()).unwrap_or(0);
+            } else if !st.success() {
+                acc.harness_errors.push(format!("cargo fuzz ended with {st} and no status line (see {log})"));
+            }
+            let mut n_art = 0;
+            if let Ok(rd) = std::fs::read_dir(&art_dir) {
+                for e in rd.flatten() {
+                    let name = e.file_name().to_string_lossy().into_owned();
+                    if name.starts_with("crash-") || name.starts_with("timeout-") || name.starts_with("oom-") || name.starts_with("leak-") {
+                        n_art += 1;
+                        let bytes = std::fs::read(e.path()).unwrap_or_default();
+                        acc.violation(Violation { sig: format!("fuzz {target}: {}", name.split('-').next().unwrap_or("artifact")), case: json!({"fuzz_target": target, "artifact": e.path().to_string_lossy(), "input_hex": hex(&bytes[..bytes.len().min(4096)])}), observed: format!("libFuzzer+ASan produced {} ({} bytes); selector bytes {:?}", name, bytes.len(), &bytes[..bytes.len().min(3)]), expected: format!("no crash, timeout or sanitizer report ({prop})") });
+                    }
+                }
+            }
+            acc.add(&format!("fuzz_{target}_artifacts"), n_art);
+            acc.count(&format!("fuzz_{target}_stage_ran"));
+        }
+    }
+}
+
+pub fn replay(v: &Value) -> i32 {
+    let c = &v["case"];
+    if let Some(art) = c["artifact"].as_str() {
+        let target = c["fuzz_target"].as_str().unwrap_or("totality");
+        let st = Command::new("cargo").current_dir("/verif/fuzzproj").args(["+nightly", "fuzz", "run", target, "--target-dir", "/verif/out/target-fuzz", art, "--", "-timeout=10"]).env("CARGO_NET_OFFLINE", "true").status();
+        return match st {
+            Ok(s) if s.success() => {
+                println!("not reproduced");
+                0
+            }
+            Ok(_) => {
+                println!("VIOLATION property=C04 replay=<this file> (reproduced)");
+                1
+            }
+            Err(e) => {
+                println!("cannot run cargo fuzz: {e}");
+                2
+            }
+        };
+    }
+    if let Some(idx) = c["case_index"].as_u64() {
+        let seed = c["seed"].as_u64().unwrap_or(0);
+        let thorough = c["thorough"].as_bool().unwrap_or(false);
+        let mut acc = Acc::default();
+        let mut p = vec![];
+        let mut h = vec![];
+        let (how, _) = drive_worker(seed, thorough, idx as usize, idx as usize + 1, 900, &mut acc, &mut p, &mut h);
+        println!("case {idx}: worker ended {how:?}; panics {p:?}; hang-guard {h:?}");
+        if !matches!(how, WorkerEnd::Done) || !p.is_empty() || !h.is_empty() {
+            println!("VIOLATION property=C04 replay=<this file> (reproduced)");
+            return 1;
+        }
+        println!("not reproduced");
+        return 0;
+    }
+    if let Some(hexs) = c["input_hex"].as_str().and_then(unhex) {
+        let (_, panics, hangs) = run_case(&hexs, 0, 0);
+        println!("panics {panics:?} hang-guard {hangs}");
+    }
+    println!("binary-sample cases: re-run the check");
     2
 }
-pub fn replay(_case: &serde_json::Value) -> i32 {
-    println!("replay not built yet");
-    2
-}
-pub fn worker_main(_args: &[String]) -> i32 { 2 }
